@@ -170,7 +170,7 @@ pub fn plan_c10(thorough: bool) -> Plan {
                 let mut o = ops.clone();
                 o.insert(pos, json!({"reopen": m}));
                 // follow-up: one more commit and a rollback after the reopen
-                o.push(c(vec![w(3, 5), del(1)]));
+                o.push(c(vec![w(0, 5), del(1)]));
                 o.push(json!({"rb": 1}));
                 let mut nc = cse.clone();
                 nc["ops"] = Value::Array(o);
@@ -373,6 +373,22 @@ pub fn plan_c11(thorough: bool) -> Plan {
         for (ops, d) in out {
             cases.push(case(seed, uni.clone(), &cfg, "all", ops, d, true));
         }
+        // explicit longer sequences: a parent whose commit is rejected (or which is dropped)
+        // while a child is live, then a session / commit on the child alone
+        let b0 = batches[0].clone();
+        let b1 = batches[1].clone();
+        for rejected_via in ["ovc", "ovcn", "ovd"] {
+            for tail in [json!({"ov": {"id": 2, "on": [1], "b": []}}), json!({"ovc": 1}), json!({"ov": {"id": 2, "on": [1, 0], "b": []}})] {
+                let ops = vec![
+                    json!({"ov": {"id": 0, "on": [], "b": b0}}),
+                    json!({"ov": {"id": 1, "on": [0], "b": b1}}),
+                    c(vec![w(3, 7)]),
+                    json!({rejected_via: 0}),
+                    tail,
+                ];
+                cases.push(case(seed, uni.clone(), &cfg, "all", ops, 5, true));
+            }
+        }
     }
     sort_by_bound(&mut cases);
     let mut p = Plan::new(
@@ -543,7 +559,7 @@ pub fn plan_c13(thorough: bool) -> Plan {
     let hist_set: Vec<(&str, Vec<&str>, Vec<Value>)> = vec![
         ("empty", vec!["U2"], vec![json!({"cw": [w(0, 1), w(3, 1), w(7, 1), w(13, 1)]}), json!({"cw": [del(0), w(5, 2), json!([7, "rw", 3])]}), json!({"reopen": {}}), json!({"cw": [w(1, 1), del(13)]})]),
         ("cl12x19", vec!["CL12:17-23"], vec![json!({"cw": [w(2, 1), w(3, 1)]}), json!({"cw": [del(0), del(1), del(2)]}), json!({"cw": [w(0, 1)]}), json!({"reopen": {}}), json!({"cw": [w(1, 1), w(2, 5)]})]),
-        ("cl18x21", vec!["CL18:19-23"], vec![json!({"cw": [del(0), del(1)]}), json!({"cw": [w(0, 1), w(4, 1)]}), json!({"cw": [del(2)]}), json!({"reopen": {}}), json!({"cw": [w(1, 1)]})]),
+        ("cl18x21", vec!["CL18:19-24"], vec![json!({"cw": [del(0), del(1)]}), json!({"cw": [w(0, 1), w(4, 1)]}), json!({"cw": [del(2)]}), json!({"reopen": {}}), json!({"cw": [w(1, 1)]})]),
         ("leaf", vec!["seed:0,2,5", "U4"], vec![json!({"cw": [w(0, 70000), w(3, 1333)]}), json!({"cw": [del(0), json!([1, "rd"])]}), json!({"reopen": {}}), json!({"cw": [w(4, 1300), w(5, 1300), w(6, 1300)]})]),
         ("bulk", vec!["seed:0,300,700,1100,1499", "U4"], vec![json!({"cw": [del(0), del(2), w(5, 9), w(8, 1333)]}), json!({"cw": [w(1, 1), del(4)]}), json!({"reopen": {}}), json!({"cw": [w(0, 3)]})]),
         ("branch", vec!["seed:0,1,299,300,598,599"], vec![json!({"cw": [del(0), del(1), del(2)]}), json!({"cw": [w(0, 1300), w(3, 1333)]}), json!({"reopen": {}}), json!({"cw": [del(5)]})]),
